@@ -80,9 +80,9 @@ type replayValue struct {
 func TestC20(t *testing.T) {
 	st := pbt.For("C20")
 	defer st.Finish(t)
-	st.SetExtra("registered_codes", len(allCodes()))
+	st.SetExtra("registered_codes", fmt.Sprint(len(allCodes())))
 	rapid.Check(t, func(t *rapid.T) {
-		d := rapid.SampledFrom(depthDist).Draw(t, "depth")
+		d := genDepth(t)
 		o := &genOpts{coded: true, opaque: true, budget: 40}
 		tc := &TreeCase{Tree: genTree(t, d, o)}
 		if rapid.IntRange(0, 3).Draw(t, "metamorphic?") > 0 {
@@ -115,7 +115,7 @@ func TestC20EveryCode(t *testing.T) {
 	st := pbt.For("C20")
 	defer st.Finish(t)
 	codesList := allCodes()
-	st.SetExtra("registered_codes", len(codesList))
+	st.SetExtra("registered_codes", fmt.Sprint(len(codesList)))
 	rapid.Check(t, func(t *rapid.T) {
 		d := rapid.IntRange(0, 8).Draw(t, "depth")
 		o := &genOpts{coded: false, opaque: false, budget: 16}
